@@ -42,6 +42,7 @@ fn value_json(v: &Value) -> J {
                    "base_factor": format!("{:e}", p.base_factor), "text": q.to_string()})
         }
         Value::Boolean(b) => json!({"k": "bool", "value": b}),
+        Value::List(l) => json!({"k": "list", "elems": l.iter().map(value_json).collect::<Vec<_>>()}),
         other => json!({"k": "other", "text": other.to_string()}),
     }
 }
